@@ -239,7 +239,8 @@ def run(chk):
                 chk.fail("GMM training on a %s input raises %r" % (lname, e), {"layout": lname, "X": hexlist(X), "shape": [C, D]})
                 continue
             chk.count(1, key=("layout", lname))
-            if not (nl == n0 and np.allclose(Ll, L0, rtol=1e-12, atol=1e-12) and np.allclose(ml.means, m0.means, rtol=1e-12, atol=1e-12)):
+            # (another memory layout changes NumPy's summation order: equal up to rounding, which sum x^2/n - mean^2 amplifies by (mean/sd)^2)
+            if gt.well_conditioned(m0, X) and not (nl == n0 and np.allclose(Ll, L0, rtol=1e-8, atol=1e-9) and np.allclose(ml.means, m0.means, rtol=1e-8, atol=1e-9 * (1 + float(np.abs(X).max())))):
                 chk.fail("GMM training differs for the same values given as %s" % lname, {"layout": lname, "X": hexlist(X), "shape": [C, D]})
     # ---- other storage types of the training values (single precision with a common offset, narrow integers): training sees the VALUES;
     #      the run is the same as on the float64 copy, and in particular every iteration still raises the likelihood
